@@ -191,16 +191,16 @@ func TestVerifC19(t *testing.T) {
 
 	if only < 0 {
 		c.Floor("seq_adds_accepted", int64(nseq*5))
-		c.Floor("seq_adds_refused_equal_revision", int64(nseq))
+		c.Floor("seq_adds_refused_equal_revision", int64(nseq/2))
 		c.Floor("seq_adds_refused_lower_revision", int64(nseq*3))
 		c.Floor("seq_adds_refused_clash_trusted", int64(nseq/4))
 		c.Floor("seq_adds_refused_clash_predefined", int64(nseq/4))
 		c.Floor("seq_adds_refused_unsupported_format", int64(nseq/4))
-		c.Floor("seq_finds_found_identity_with_2plus_adds", int64(nseq))
-		c.Floor("seq_finds_older_revision_due_to_maxformat", int64(nseq/20))
+		c.Floor("seq_finds_found_identity_with_2plus_adds", int64(nseq/2))
+		c.Floor("seq_finds_older_revision_due_to_maxformat", int64(nseq/40))
 		c.Floor("seq_findmany_assertions_returned", int64(nseq*5))
-		c.Floor("seq_findsequence_found_latest", int64(nseq))
-		c.Floor("seq_findsequence_found_after_n", int64(nseq))
+		c.Floor("seq_findsequence_found_latest", int64(nseq/2))
+		c.Floor("seq_findsequence_found_after_n", int64(nseq/2))
 		c.Floor("seq_findsequence_answer_changed_by_maxformat", int64(nseq/10))
 		c.Floor("seq_adds_accepted_key_with_glob_chars", int64(nseq/20))
 		c.Floor("seq_adds_accepted_nondefault_optional_key", int64(nseq/4))
